@@ -32,7 +32,8 @@
 EXTENDS Integers, Sequences, FiniteSets, TLC, Json
 
 CONSTANTS
-  Encs,      \* subset of {"xor", "xor2"}
+  Encs,      \* subset of {"xor", "xor2", "xor2n"}; "xor2n" = an XOR2 chunk that is never given a start
+             \* timestamp (the common case: the ST-free fast paths of the encoder)
   TC2,       \* classes of the first timestamp delta (second sample)
   TCn,       \* delta-of-delta classes (third sample on)
   VCs,       \* value classes
@@ -80,9 +81,10 @@ Init ==
 
 Step(rec) == nops' = nops + 1 /\ hist' = Append(hist, rec)
 
-Classes == IF N = 0 THEN {[tc |-> "first", vc |-> v, sc |-> s] : v \in VCs \ {"same", "reuse"}, s \in SCs}
-           ELSE IF N = 1 THEN {[tc |-> t, vc |-> v, sc |-> s] : t \in TC2, v \in VCs, s \in SCs}
-           ELSE {[tc |-> t, vc |-> v, sc |-> s] : t \in TCn, v \in VCs, s \in SCs}
+SC == IF enc = "xor2n" THEN {"none"} ELSE SCs
+Classes == IF N = 0 THEN {[tc |-> "first", vc |-> v, sc |-> s] : v \in VCs \ {"same", "reuse"}, s \in SC}
+           ELSE IF N = 1 THEN {[tc |-> t, vc |-> v, sc |-> s] : t \in TC2, v \in VCs, s \in SC}
+           ELSE {[tc |-> t, vc |-> v, sc |-> s] : t \in TCn, v \in VCs, s \in SC}
 
 Walk == EmitMode = "walk"
 MustReopen == Walk /\ N \in ReopenAt /\ N \notin {r[1] : r \in reop} /\ N < MaxLen /\ Reopens # {}
